@@ -36,6 +36,13 @@ def handle (f : String) (j : Json) : Option Json :=
     match field j "safe" with
     | .str safe => some (jstr (unchars (safelyQuoteIn (chars safe) s)))
     | _ =>
+      -- `post`: the unquoter computed in the order of the Python code (decode, then the two
+      -- re-escaping passes: `safelyUnquotePost`, proved equal to `safelyUnquote`)
+      if fieldBool j "post" then
+        match unsafeOf (fieldStr j "fn") with
+        | some U => some (jstr (unchars (safelyUnquotePost U s)))
+        | none => some (jerr "bad-fn")
+      else
       match call (fieldStr j "fn") s with
       | some r => some (jstr (unchars r))
       | none => some (jerr "bad-fn")
